@@ -453,6 +453,19 @@ fn programs(family: &str) -> Vec<(String, Outcome)> {
             p("f :: fn a: int do\n    ret 1\nend\nstart :: fn do\n    f(3)\nend\n", Outcome::Reject);
             p("f :: fn a: int do\n    ret\nend\nstart :: fn do\n    f(3)\nend\n", Outcome::Accept);
         }
+        "void" => {
+            // storing `void` (the result of a function that returns nothing) in a variable, parameter, list or field
+            let pre = "log :: fn msg: str do\nend\nkeep :: fn x do\nend\nkeepi :: fn x: int do\nend\n";
+            let st = |body: &str| format!("{}start :: fn do\n{}end\n", pre, body);
+            p(&st("    log(\"a\")\n"), Outcome::Accept);
+            p(&st("    keep(1)\n"), Outcome::Accept);
+            p(&st("    keep(log(\"a\"))\n"), Outcome::Reject);
+            p(&st("    keepi(log(\"a\"))\n"), Outcome::Reject);
+            p(&st("    x := log(\"a\")\n"), Outcome::Reject);
+            p(&st("    x :: log(\"a\")\n"), Outcome::Reject);
+            p(&st("    keep(keep(1))\n"), Outcome::Reject);
+            p(&st("    keep(1)\n    keep(\"s\")\n"), Outcome::Accept);
+        }
         "start" => {
             // a program needs a global `start` in the MAIN file
             let other_with = "//==file other.sy\nstart :: fn do\n    print(1)\nend\n";
